@@ -84,13 +84,13 @@ impl Property for C05 {
     }
     fn cases(&self, tier: Tier) -> u64 {
         match tier {
-            Tier::Quick => 40_000,
+            Tier::Quick => 150_000,
             Tier::Thorough => 8_000_000,
         }
     }
     fn min_nontrivial(&self, tier: Tier) -> u64 {
         match tier {
-            Tier::Quick => 10_000,
+            Tier::Quick => 40_000,
             Tier::Thorough => 2_000_000,
         }
     }
